@@ -49,9 +49,12 @@ inductive Ev where
   | remove (p : Path)
   deriving DecidableEq, Repr
 
-/-- `pwrite`: `b` written at offset `pos` of `d` (hole filled with NUL) -/
+/-- `pwrite`: `b` written at offset `pos` of `d` (hole filled with NUL); writing nothing changes nothing
+(POSIX: a `write` of 0 bytes to a regular file has no effect, in particular it does not extend the file) -/
 def writeAt (d : Content) (pos : Nat) (b : Content) : Content :=
-  d.take pos ++ List.replicate (pos - d.length) '\x00' ++ b ++ d.drop (pos + b.length)
+  match b with
+  | [] => d
+  | _ :: _ => d.take pos ++ List.replicate (pos - d.length) '\x00' ++ b ++ d.drop (pos + b.length)
 
 def step (s : St) : Ev → St
   | .openW w p =>
